@@ -184,11 +184,12 @@ def load():
         die("reader: unknown expression for the hard register string number: %r" % e)
     # #6 lref labels
     m = re.search(r"i\s*=\s*read_int\s*\(ctx,\s*\"wrong lref label num\"\)\s*;\s*lab\s*=\s*(\w+)\s*\(ctx,\s*i\)\s*;\s*"
-                  r"i\s*=\s*read_int\s*\(ctx,\s*\"wrong 2nd lref label num\"\)\s*;\s*lab2\s*=\s*i\s*<\s*0\s*\?\s*NULL\s*:\s*(\w+)\s*\(ctx,\s*i\)\s*;", rd)
+                  r"i\s*=\s*read_int\s*\(ctx,\s*\"wrong 2nd lref label num\"\)\s*;\s*lab2\s*=\s*i\s*(<=?)\s*0\s*\?\s*NULL\s*:\s*(\w+)\s*\(ctx,\s*i\)\s*;", rd)
     if not m:
         die("reader: lref label creation not recognised")
-    if m.group(1) != m.group(2) or m.group(1) not in ("create_label", "to_lab"):
-        die("reader: lref labels made by %s/%s" % (m.group(1), m.group(2)))
+    if m.group(1) != m.group(3) or m.group(1) not in ("create_label", "to_lab"):
+        die("reader: lref labels made by %s/%s" % (m.group(1), m.group(3)))
+    lref_zero_none = m.group(2) == "<="
     lref_orphan = m.group(1) == "create_label"
     # where is func_labels reset?  (per function today)
     resets = re.findall(r"VARR_TRUNC\s*\(MIR_label_t,\s*func_labels,\s*0\)", rd)
@@ -228,7 +229,7 @@ def load():
             "out_flag": ev(m.group(1), env), "version": version, "blk_num": blk_num,
             "code_limit": code_limit, "code_limit_name": code_limit_name, "insn_bound": insn_bound,
             "cfg": {"unportable": unport_r, "globalDoubleRead": double_read, "lrefOrphan": lref_orphan,
-                    "dataPtr": data_ptr, "codeLimit": code_limit, "endfuncLabels": endfunc_labels}}
+                    "dataPtr": data_ptr, "codeLimit": code_limit, "endfuncLabels": endfunc_labels, "lrefZeroIsNone": lref_zero_none}}
 
 
 def main():
@@ -282,6 +283,7 @@ def main():
     L.append("  lrefOrphan := %s," % ("true" if lref_orphan else "false"))
     L.append("  dataPtr := %s," % ("true" if data_ptr else "false"))
     L.append("  endfuncLabels := %s," % ("true" if endfunc_labels else "false"))
+    L.append("  lrefZeroIsNone := %s," % ("true" if t["cfg"]["lrefZeroIsNone"] else "false"))
     L.append("  version := %d }" % version)
     L.append("")
     L.append("end MirVerif.Gen.C11")
